@@ -343,6 +343,14 @@ def _state_SA(res, w, T, count=True):
     if v0 is not None and not (500 < v0 < 2500):
         J.fail("plain", "value", "sulfuric_acid_density plain%s = %r is not a liquid density" % (lab, v0), v0, "500..2500 kg/m3")
         v0 = None
+    # the documented T0 argument (value of T at 0 degC): the same temperature on a shifted scale, T0 = 0 being the Celsius scale
+    for T0 in (0, 0.0, 273.16):
+        Tin = T - 273.15 + T0
+        v, wn, _ = _call(res, lambda: f(w, Tin, T0=T0))
+        J.value("T0-override", v, None, v0, 1e-9, "T0=%r%s" % (T0, lab))
+        if not _is_exc(v) and expect is not None and not _near(T, lo, hi):
+            J.warning("T0-override", wn, expect, "T0=%r%s" % (T0, lab))
+        res.symbols["SA:T0=%r" % (T0,)] += 1
     v, wn, _ = _call(res, lambda: f(w, T * u.K, units=u))
     J.value("units-mode", v, unit, v0, TOL, "units=default_units, T in K" + lab)
     if not _is_exc(v):
